@@ -30,8 +30,8 @@ from core import Exn, call, cstr
 from schema_gen import obj_to_coq
 
 CLAIM = {
-    "text": "Coq theorems (Props/C13.v) about a model of validate.valid_instance / validate_value_type / valid and the five verify() overrides over the regenerated schema tables, for EVERY schema, VALIDATOR key list, primitive-validator function and instance tree (unbounded depth, induction over the reachability relation / instance trees): if any sub-instance reachable through declared child members has a required attribute missing or empty, a child count outside its c_cardinality min/max, or an attribute / text value refused by the primitive validator its declared type name resolves to, by its enumeration, or by its list member type, then valid_instance(root) and root.verify() raise (C13_rejects, C13_rejects_actual, C13_rejects_decided); if every node satisfies its constraints with resolving types and the overrides' own conditions hold, both succeed (C13_accepts, C13_accepts_decided); the two sides are exclusive. Kernel-evaluated on today's tables for ALL rows, no exception list: every declared attribute type / value-type base / list member resolves - a name that is an XSD built-in type to the VALIDATOR key of that very type, any other name to string (C13_types_resolve, C13_value_types_resolve), every declared enumeration is decided by membership alone whatever its base (C13_enumerations_enforced), so no typed or enumerated attribute value escapes (C13_no_typed_value_escapes, C13_no_enumerated_value_escapes); the verify() overrides are the five modelled ones. Non-vacuity: a Response and an EntityDescriptor read back from real objects satisfy `good`, 13 single-constraint mutations of them 1-3 levels down have a reachable violation. The model follows validate.py WITH the repairs proposed_fix/C13-1..3; *_before_fix_refuted theorems keep the failures of the earlier code.",
-    "note": "Trusted: Coq kernel + vm_compute; translator; the model is hand-written and tested per constraint on every run (units prim, valid, vvt, valid_instance, verify, spec). In the theorems the primitive lexical validators are a function parameter; in the correspondence boolean, the string kinds, the 13 integer kinds (python int() grammar: blanks, sign, single underscores; ASCII digits only), NMTOKEN(S), language and valid_domain_name (regular expressions through a derivative matcher) are Gallina definitions compared with the real functions on edge values, while dateTime, duration, base64Binary, anyURI and IP address are a table of clear-cut samples whose verdicts are checked against the real functions. str.strip() / str.lower() are modelled for ASCII. ONLY TESTED, not proved: agreement of model and code; the SAML-schema anchors. c_value_type maxlen is never enforced (outside the statement). Occurrence bounds are c_cardinality entries only; a single-valued child without an entry (Assertion.issuer, Response.status) is not checked. The committed check expects /repo + proposed_fix/C13-1.diff, C13-2.diff, C13-3.diff (on the unrepaired tree it reports the 177 former findings as violations).",
+    "text": "Coq theorems (Props/C13.v) about a model of validate.valid_instance / validate_value_type / valid and the five verify() overrides over the regenerated schema tables, for EVERY schema, VALIDATOR key list, primitive-validator function and instance tree (unbounded depth, induction over the reachability relation / instance trees): if any sub-instance reachable through declared child members has a required attribute missing or empty, a child count outside its c_cardinality min/max, or an attribute / text value refused by the primitive validator its declared type name resolves to, by its enumeration, or by its list member type, then valid_instance(root) and root.verify() raise (C13_rejects, C13_rejects_actual, C13_rejects_decided); if every node satisfies its constraints with resolving types and the overrides' own conditions hold, both succeed (C13_accepts, C13_accepts_decided); the two sides are exclusive. Kernel-evaluated on today's tables for ALL rows, no exception list: every declared attribute type / value-type base / list member resolves - a name that is an XSD built-in type to the VALIDATOR key of that very type, any other name to string (C13_types_resolve, C13_value_types_resolve), valid() never raises KeyError for any type name (C13_valid_never_keyerror), every declared enumeration is decided by membership alone whatever its base (C13_enumerations_enforced), so no typed or enumerated attribute value escapes (C13_no_typed_value_escapes, C13_no_enumerated_value_escapes); the verify() overrides are the five modelled ones. Non-vacuity: a Response and an EntityDescriptor read back from real objects satisfy `good`, 13 single-constraint mutations of them 1-3 levels down have a reachable violation. The model follows validate.py WITH the repairs proposed_fix/C13-1..3; *_before_fix_refuted theorems keep the failures of the earlier code.",
+    "note": "Trusted: Coq kernel + vm_compute; translator; the model is hand-written and tested per constraint on every run (units prim, valid, vvt, valid_instance_spec, verify). In the theorems the primitive lexical validators are a function parameter; in the correspondence boolean, the string kinds, the 13 integer kinds (python int() grammar: blanks, sign, single underscores; ASCII digits only), NMTOKEN(S), language and valid_domain_name (regular expressions through a derivative matcher) are Gallina definitions compared with the real functions on edge values, while dateTime, duration, base64Binary, anyURI and IP address are a table of clear-cut samples whose verdicts are checked against the real functions. str.strip() / str.lower() are modelled for ASCII. ONLY TESTED, not proved: agreement of model and code; the constraints taken from the SAML 2.0 schemas (SPEC_ANCHORS); that the SP / IdP entry points run the validation on what they parse (23 violated messages through parse_authn_request_response / parse_authn_request). c_value_type maxlen is never enforced (outside the statement). Occurrence bounds are c_cardinality entries only; a single-valued child without an entry (Assertion.issuer, Response.status) is not checked. The committed check expects /repo + proposed_fix/C13-1.diff, C13-2.diff, C13-3.diff (on the unrepaired tree it reports the 177 former findings as violations).",
     "technique": "machine-checked proof (Coq, induction over instance trees) + regenerated-table obligations over all rows + per-constraint model/implementation correspondence",
 }
 TRUSTED = [
@@ -44,7 +44,8 @@ ASSUMPTIONS = [
 ]
 RULE = ("for every class: minimal valid instance; each required attribute missing and empty; each attribute / text of a typed kind with valid and invalid "
         "samples (text also padded); each c_cardinality bound violated from below, met exactly and exceeded; override conditions; each violated instance also nested "
-        "under every parent class, in list members at the first, middle and last position (quick: one violated + the valid child per parent/child row; thorough: all). "
+        "under every parent class, in list members at the first, middle and last position (quick: one violated + the valid child per parent/child row; thorough: all); "
+        "classes without a constraint of their own with a violation further down; random two-level chains; a share of the root variants again with ignorable decoration. "
         "Non-trivial = exactly one constraint violated (distinct by class, constraint, nesting)")
 
 IMPORTS = "Model.Schema Model.Validate Gen.SchemaTables"
@@ -367,6 +368,28 @@ class Builder(object):
             out.append(("override-locality-both", "address", False, o))
         return out
 
+    def deep_violated(self, cid, per_class, depth=4, seen=()):
+        """(description, instance of class cid with exactly one violated constraint somewhere BELOW it) for a class
+        that has no violated variant of its own - through its first child row that leads to one; None if there is none"""
+        T = self.T
+        row = T.rows[cid]
+        if row["over"] or depth <= 0 or cid in seen:
+            return None
+        for (_k, m, c, islist) in row["children"]:
+            if c is None or m in row["missing"]:
+                continue
+            own = [v for v in per_class[c] if v[2] is True]
+            if own:
+                kind, member, _v, o = own[0]
+                return ("%s.%s>%s:%s.%s" % (T.qname[cid], T.names[m], T.qname[c], kind, member), self.nest(cid, m, islist, o, c, "middle"))
+        for (_k, m, c, islist) in row["children"]:
+            if c is None or m in row["missing"]:
+                continue
+            d = self.deep_violated(c, per_class, depth - 1, seen + (cid,))
+            if d is not None:
+                return ("%s.%s>%s" % (T.qname[cid], T.names[m], d[0]), self.nest(cid, m, islist, d[1], c, "middle"))
+        return None
+
     def nest(self, pid, m, islist, o, cid, pos):
         """the parent's minimal instance with o under member m; in a list at position pos of three"""
         T = self.T
@@ -388,6 +411,16 @@ class Builder(object):
 
 def outcome(r):
     return r if isinstance(r, Exn) else True
+
+
+def decorate(T, o):
+    """a copy of o with content validation must ignore: text where the class has no value type, a foreign attribute"""
+    import copy
+    d = copy.deepcopy(o)
+    if not T.rows[T.cid[type(d)]]["vtype"] and not d.text:
+        d.text = "decoration"
+    d.extension_attributes["{urn:pv:foreign}x"] = "1"
+    return d
 
 
 # ---------------------------------------------------------------- primitive validators
@@ -805,6 +838,119 @@ def check_examples(ctx, T):
         ctx.count("example:%s" % (r.name if isinstance(r, Exn) else "accepted"))
 
 
+# ---------------------------------------------------------------- the call sites: every received message is validated
+def _entry_response():
+    import resp
+    from saml2_tophat import saml, samlp
+    spec = resp.default_response()
+    a = resp._assertion(spec["assertions"][0])
+    return samlp.Response(id=spec["id"], in_response_to=spec["in_response_to"], version=spec["version"], issue_instant=spec["issue_instant"],
+                          destination=spec["destination"], issuer=saml.Issuer(text=spec["issuer"]), status=resp._status(spec["status"]), assertion=[a])
+
+
+def _entry_request():
+    import env
+    from saml2_tophat import saml, samlp
+    return samlp.AuthnRequest(id="rq-1", version="2.0", issue_instant=env.ts(env.NOW), issuer=saml.Issuer(text=env.SP_ID),
+                              assertion_consumer_service_url=env.SP_ACS_POST, force_authn="false",
+                              name_id_policy=samlp.NameIDPolicy(allow_create="true", format=saml.NAMEID_FORMAT_TRANSIENT))
+
+
+def _set(path, value):
+    def f(o):
+        *head, last = path
+        for step in head:
+            o = getattr(o, step) if isinstance(step, str) else o[step]
+        setattr(o, last, value)
+    return f
+
+
+def entry_variants():
+    from saml2_tophat import saml, samlp
+    A = ("assertion", 0)
+    R = [("response: AuthnStatement without AuthnInstant (required)", _set(A + ("authn_statement", 0, "authn_instant"), None)),
+         ("response: Attribute without Name (required)", _set(A + ("attribute_statement", 0, "attribute", 0, "name"), None)),
+         ("response: Assertion Version empty (required)", _set(A + ("version",), "")),
+         ("response: Assertion without ID (required)", _set(A + ("id",), None)),
+         ("response: Response without ID (required)", _set(("id",), None)),
+         ("response: SubjectLocality Address is no IP address", _set(A + ("authn_statement", 0, "subject_locality"), saml.SubjectLocality(address="nonsense"))),
+         ("response: SubjectLocality DNSName is no host name", _set(A + ("authn_statement", 0, "subject_locality"), saml.SubjectLocality(dns_name="x y"))),
+         ("response: two OneTimeUse conditions", _set(A + ("conditions", "one_time_use"), [saml.OneTimeUse(), saml.OneTimeUse()])),
+         ("response: AuthnContext with declaration and declaration reference",
+          lambda o: (_set(A + ("authn_statement", 0, "authn_context", "authn_context_decl"), saml.AuthnContextDecl(text="d"))(o),
+                     _set(A + ("authn_statement", 0, "authn_context", "authn_context_decl_ref"), saml.AuthnContextDeclRef(text="urn:r"))(o))),
+         ("response: AudienceRestriction without Audience (min 1)", _set(A + ("conditions", "audience_restriction", 0, "audience"), [])),
+         ("response: SubjectConfirmationData NotBefore is no dateTime", _set(A + ("subject", "subject_confirmation", 0, "subject_confirmation_data", "not_before"), "yesterday")),
+         ("response: Conditions NotBefore is no dateTime", _set(A + ("conditions", "not_before"), "yesterday")),
+         ("response: StatusCode without Value (required)", _set(("status", "status_code", "value"), None)),
+         ("response: ProxyRestriction Count is negative", _set(A + ("conditions", "proxy_restriction"), [saml.ProxyRestriction(count="-1")]))]
+    Q = [("request: ForceAuthn is no boolean", _set(("force_authn",), "maybe")),
+         ("request: IsPassive is no boolean", _set(("is_passive",), "2")),
+         ("request: AssertionConsumerServiceIndex is no unsignedShort", _set(("assertion_consumer_service_index",), "65536")),
+         ("request: AttributeConsumingServiceIndex is no unsignedShort", _set(("attribute_consuming_service_index",), "-1")),
+         ("request: without ID (required)", _set(("id",), None)),
+         ("request: NameIDPolicy AllowCreate is no boolean", _set(("name_id_policy", "allow_create"), "perhaps")),
+         ("request: RequestedAuthnContext Comparison outside its enumeration",
+          _set(("requested_authn_context",), samlp.RequestedAuthnContext(comparison="bogus", authn_context_class_ref=[saml.AuthnContextClassRef(text=saml.AUTHN_PASSWORD)]))),
+         ("request: Scoping ProxyCount is negative", _set(("scoping",), samlp.Scoping(proxy_count="-1"))),
+         ("request: IDPList without IDPEntry (min 1)", _set(("scoping",), samlp.Scoping(idp_list=samlp.IDPList())))]
+    return R, Q
+
+
+def run_entry(kind, o):
+    """the message through the public entry point: True = handed over / identity returned"""
+    import base64
+    import env
+    import resp
+    from saml2_tophat import BINDING_HTTP_POST
+    with env.Clock(env.NOW):
+        if kind == "response":
+            got = resp.observe(env.make_sp(), str(o))
+            return True if isinstance(got, list) else got
+        got = call(env.make_idp().parse_authn_request, base64.b64encode(str(o).encode()).decode(), BINDING_HTTP_POST)
+        return got if isinstance(got, Exn) or got is None else True
+
+
+def check_entry(ctx):
+    """Saml2Client.parse_authn_request_response / Server.parse_authn_request run valid_instance on what they
+    parsed (response.py _postamble, request.py _loads): a message with one violated constraint is not accepted"""
+    import env
+    import saml2_tophat.request as rq_mod
+    import saml2_tophat.response as rs_mod
+    env.tool_inprocess(True)
+    R, Q = entry_variants()
+    for kind, mk, variants in (("response", _entry_response, R), ("request", _entry_request, Q)):
+        base = run_entry(kind, mk())
+        if base is not True:
+            ctx.broken.append(("entry:%s" % kind, "the unviolated %s is not accepted by the entry point (%r): the entry-point oracle cannot run" % (kind, base)))
+            continue
+        only_guard = 0
+        for label, mut in variants:
+            o = mk()
+            mut(o)
+            if not isinstance(call(o.verify), Exn):
+                ctx.broken.append(("entry:" + label, "harness: the variant is not a violation for obj.verify()"))
+                continue
+            got = run_entry(kind, o)
+            ctx.count("entry:%s:%s" % (kind, "accepted" if got is True else "refused"))
+            ctx.nontriv(("entry", label))
+            if got is True:
+                ctx.oracle_fail("entry-accepted:" + label, "%s is accepted by the %s entry point" % (label, "SP" if kind == "response" else "IdP"),
+                                {"unit": "entry", "kind": kind, "label": label, "xml": str(o)})
+            # is validation the only guard for this variant?  (patched in THIS process only)
+            mod = rs_mod if kind == "response" else rq_mod
+            keep = mod.valid_instance
+            mod.valid_instance = lambda inst: True
+            try:
+                if run_entry(kind, o) is True:
+                    only_guard += 1
+            finally:
+                mod.valid_instance = keep
+        ctx.extra.setdefault("entry_variants_where_validation_is_the_only_guard", {})[kind] = "%d of %d" % (only_guard, len(variants))
+        if only_guard == 0:
+            ctx.notes.append("entry-point oracle (%s): every variant is also refused by a later check - it does not isolate the valid_instance call" % kind)
+
+
 # ---------------------------------------------------------------- the run
 def run(ctx):
     from saml2_tophat.validate import valid_instance
@@ -826,6 +972,8 @@ def run(ctx):
     check_examples(ctx, T)
     check_anchors(ctx, T, B)
     lap("examples+anchors")
+    check_entry(ctx)
+    lap("entry")
     lists = kernel_lists(ctx)
     lap("kernel_lists")
     ctx.extra["kernel_lists"] = {"unresolved_attr_types": len(lists[0]), "unenforced_enums": len(lists[1]),
@@ -873,7 +1021,7 @@ def run(ctx):
             ver_cases.append(dict(id="verify:" + cid_, coq=coq, impl=r2, show=show))
         if violated is not None:
             spec_cases.append(cid_)
-        ctx.count("%s:%s" % (kind if not kind.startswith("override") else "override", r.name if isinstance(r, Exn) else "accepted"))
+        ctx.count("%s:%s" % (kind.split(":")[0] if not kind.startswith("override") else "override", r.name if isinstance(r, Exn) else "accepted"))
         rep = {"unit": "variant", "class": qn, "kind": kind, "member": member, "nest": nest, "idx": idx, "xml": schema_gen.describe(T, o, 1500)}
         # the property itself, on the implementation
         if violated is True:
@@ -892,8 +1040,20 @@ def run(ctx):
         per_class[cid] = vs
         for idx, (kind, member, violated, o) in enumerate(vs):
             add(o, cid, kind, member, violated, "root", idx)
+            # the same with content validation does not look at: text of a class without value type, foreign attributes
+            if not T.rows[cid]["over"] and ctx.rng.random() < (0.35 if ctx.quick else 1.0):
+                add(decorate(T, o), cid, kind, member, violated, "root+decor", idx)
         if cid % 200 == 0:
             ctx.sample(dict(cls=T.qname[cid], variants=[(k, m) for k, m, _v, _o in vs][:12]))
+    # classes without a violated variant of their own get one with the violation further down,
+    # so that every class also occurs as an intermediate node above a violation
+    for cid in range(len(T.classes)):
+        if not any(v[2] is True for v in per_class[cid]):
+            d = B.deep_violated(cid, per_class)
+            if d is not None:
+                per_class[cid] = per_class[cid] + [("deep:" + d[0], "-", True, d[1])]
+                add(d[1], cid, "deep:" + d[0], "-", True, "root", len(per_class[cid]) - 1)
+                ctx.count("deep-variant-classes")
     # nested under each possible parent
     for cid, plist in sorted(B.parents.items()):
         vs = per_class[cid]
@@ -911,12 +1071,60 @@ def run(ctx):
                 for pos in (("first", "middle", "last") if islist and violated else ("last",)):
                     p = B.nest(pid, m, islist, o, cid, pos)
                     add(p, cid, kind, member, violated, "under:%s.%s:%s" % (T.qname[pid], T.names[m], pos), idx)
+    # random chains: a violated instance two levels below the root
+    rows = [(pid, m, islist, cid) for cid, plist in sorted(B.parents.items()) for (pid, m, islist) in plist
+            if not T.rows[pid]["over"] and m not in T.rows[pid]["missing"]]
+    made, want = 0, (400 if ctx.quick else 6000)
+    for _ in range(want * 20):
+        if made >= want:
+            break
+        pid, m, islist, cid = ctx.rng.choice(rows)
+        ups = [r for r in B.parents.get(pid, []) if not T.rows[r[0]]["over"] and r[1] not in T.rows[r[0]]["missing"]]
+        viol = [i for i, v in enumerate(per_class[cid]) if v[2] is True]
+        if not ups or not viol:
+            continue
+        gid, gm, glist = ctx.rng.choice(ups)
+        idx = ctx.rng.choice(viol)
+        kind, member, violated, o = per_class[cid][idx]
+        pos1, pos2 = ctx.rng.choice(["first", "middle", "last"]), ctx.rng.choice(["first", "middle", "last"])
+        mid = B.nest(pid, m, islist, o, cid, pos1)
+        top = B.nest(gid, gm, glist, mid, pid, pos2)
+        add(top, cid, kind, member, violated, "under:%s.%s:%s/under:%s.%s:%s" % (T.qname[pid], T.names[m], pos1, T.qname[gid], T.names[gm], pos2), idx)
+        ctx.count("chain-depth-2")
+        made += 1
     lap("generate+implementation")
     ctx.extra["cases"] = {"valid_instance": len(vi_cases), "verify": len(ver_cases), "spec": len(spec_cases)}
     corr_retry.correspond(ctx, "valid_instance_spec", IMPORTS, vi_spec_expr(), "inst * Z", vi_cases, shard=250, timeout=900)
     lap("model:valid_instance_spec")
     corr_retry.correspond(ctx, "verify", IMPORTS, model_expr("verify"), "inst", ver_cases, shard=150, timeout=900)
     lap("model:verify")
+
+
+def _pretty(model):
+    """`VE [78; 111; ...]` as printed by Coq -> raises NotValid"""
+    t = (model or "?").split(": val")[0].strip()
+    return re.sub(r"VE\s*\[([0-9;\s]*)\](%N)?", lambda m: "raises " + "".join(chr(int(x)) for x in re.findall(r"\d+", m.group(1))), t)
+
+
+def cex_search(ctx):
+    """a model / implementation disagreement IS a concrete input: name it, so that the replay file carries it"""
+    for d in ctx.disagreements[:20]:
+        show = d.case.get("show") or {}
+        if d.unit in ("valid_instance_spec", "verify") and "kind" in show:
+            ctx.oracle_fail("disagreement:%s:%s:%s.%s" % (d.unit, show["violated_class"], show["kind"].split(":")[0], show["member"]),
+                            "%s of %s.%s (%s): the implementation gives %r, the verified model %s" % (
+                                show["kind"], show["violated_class"], show["member"], show["nest"], d.impl, _pretty(d.model)),
+                            {"unit": "variant", "class": show["violated_class"], "kind": show["kind"], "member": show["member"], "nest": show["nest"], "idx": show["idx"]})
+        elif d.unit == "prim":
+            ctx.oracle_fail("disagreement:prim:%s:%r" % (show["key"], show["value"]), "validator %s on %r: implementation %r, model %s" % (
+                show["key"], show["value"], d.impl, _pretty(d.model)), {"unit": "prim", "key": show["key"], "value": show["value"]})
+        elif d.unit == "valid":
+            i = 0
+            ctx.oracle_fail("disagreement:valid:%r" % (show["typ"],), "validate.valid(%r, v) over the probe values %r: implementation %r, model %s" % (
+                show["typ"], PROBES, d.impl, _pretty(d.model)[:400]), {"unit": "valid", "typ": show["typ"], "value": PROBES[i]})
+        elif d.unit == "vvt":
+            ctx.oracle_fail("disagreement:vvt:%r:%r" % (sorted(show["spec"].items()), show["value"]), "validate_value_type(%r, %r): implementation %r, model %s" % (
+                show["value"], show["spec"], d.impl, _pretty(d.model)), {"unit": "vvt", "spec": show["spec"], "value": show["value"]})
 
 
 def replay(ctx, payload):
@@ -960,17 +1168,35 @@ def replay(ctx, payload):
         print(label)
         print(schema_gen.describe(T, o, 3000))
         print("valid_instance ->", outcome(call(valid_instance, o)))
+    elif u == "entry":
+        import env
+        env.tool_inprocess(True)
+        R, Q = entry_variants()
+        mk, variants = (_entry_response, R) if inp["kind"] == "response" else (_entry_request, Q)
+        o = mk()
+        dict(variants)[inp["label"]](o)
+        print(inp["label"])
+        print(str(o)[:3000])
+        print("obj.verify() ->", outcome(call(o.verify)), "; entry point ->", run_entry(inp["kind"], o))
     elif u == "variant":
         cid = T.qname.index(inp["class"])
-        vs = B.variants(cid)
+        per_class = {c: B.variants(c) for c in range(len(T.classes))}
+        vs = per_class[cid]
+        if inp["idx"] >= len(vs):
+            d = B.deep_violated(cid, per_class)
+            vs = vs + [("deep:" + d[0], "-", True, d[1])]
         kind, member, violated, o = vs[inp["idx"]]
-        if inp["nest"] != "root":
-            _u, pm, pos = inp["nest"].split(":")
+        below = cid
+        for step in ([] if inp["nest"].startswith("root") else inp["nest"].split("/")):
+            _u, pm, pos = step.split(":")
             pq, mname = pm.rsplit(".", 1)
             pid = T.qname.index(pq)
             m = T.intern[mname]
             islist = next(c[3] for c in T.rows[pid]["children"] if c[1] == m)
-            o = B.nest(pid, m, islist, o, cid, pos)
+            o = B.nest(pid, m, islist, o, below, pos)
+            below = pid
+        if inp["nest"] == "root+decor":
+            o = decorate(T, o)
         print("variant:", inp["class"], kind, member, inp["nest"], "violated =", violated)
         print(schema_gen.describe(T, o, 3000))
         print("valid_instance ->", outcome(call(valid_instance, o)))
